@@ -19,6 +19,42 @@ import (
 
 func TestMain(m *testing.M) { harness.Main(m) }
 
+// chunkReader delivers a block's Source in pieces that are a pure function of
+// the bytes: mode 1 = one byte per Read, mode 2 = every Read ends directly
+// after the next CR or LF (so a CRLF pair is split and a bare CR is always the
+// last byte of a read), mode 3 = 7 bytes per Read.
+type chunkReader struct {
+	data []byte
+	pos  int
+	mode int
+}
+
+func (r *chunkReader) Read(p []byte) (int, error) {
+	if r.pos >= len(r.data) {
+		return 0, io.EOF
+	}
+	n := 1
+	switch r.mode {
+	case 2:
+		if i := bytes.IndexAny(r.data[r.pos:], "\r\n"); i >= 0 {
+			n = i + 1
+		} else {
+			n = len(r.data) - r.pos
+		}
+	case 3:
+		n = 7
+	}
+	if n > len(r.data)-r.pos {
+		n = len(r.data) - r.pos
+	}
+	if n > len(p) {
+		n = len(p)
+	}
+	copy(p, r.data[r.pos:r.pos+n])
+	r.pos += n
+	return n, nil
+}
+
 func prop(c harness.Case) harness.Result {
 	blocks, refs := cm.Parse(append([]byte(nil), c.In...))
 	res := harness.Result{Labels: gen.Classify(c.In)}
@@ -38,7 +74,11 @@ func prop(c harness.Case) harness.Result {
 		if n := len(b.Source); len(blocks) >= 2 && n > 0 && b.Source[n-1] != '\n' && b.Source[n-1] != '\r' {
 			res.Nontrivial = true
 		}
-		p := cm.NewBlockParser(bytes.NewReader(b.Source))
+		var rd io.Reader = bytes.NewReader(b.Source)
+		if m := c.I["rmode"]; m > 0 {
+			rd = &chunkReader{data: b.Source, mode: m}
+		}
+		p := cm.NewBlockParser(rd)
 		var got []*cm.RootBlock
 		for {
 			nb, err := p.NextBlock()
@@ -74,15 +114,24 @@ func prop(c harness.Case) harness.Result {
 	if len(blocks) >= 2 {
 		res.Labels = append(res.Labels, "blocks>=2")
 	}
+	res.Labels = append(res.Labels, fmt.Sprintf("reader_mode=%d", c.I["rmode"]))
 	return res
 }
 
-const rule = "documents from G1/G2/G3, every root block re-parsed alone with the document's reference map; excluded exactly: a Paragraph/SetextHeading whose StartOffset equals the EndOffset of a preceding LinkReferenceDefinition root block; non-trivial = document has >= 2 root blocks and some block is a container, code block or HTML block, or ends without a line ending"
+const rule = "documents from G1/G2/G3, every root block re-parsed alone with the document's reference map, its Source delivered by bytes.Reader in one piece, one byte per read, one line ending per read (CRLF split, a bare CR last in its read) or 7 bytes per read; excluded exactly: a Paragraph/SetextHeading whose StartOffset equals the EndOffset of a preceding LinkReferenceDefinition root block; non-trivial = document has >= 2 root blocks and some block is a container, code block or HTML block, or ends without a line ending"
+
+func withReader(t *rapid.T, c harness.Case) harness.Case {
+	// half of the cases use the plain reader, the rest one of the chunked ones
+	if m := rapid.IntRange(0, 5).Draw(t, "rmode"); m >= 3 {
+		c.SetI("rmode", m-2)
+	}
+	return c
+}
 
 func plan() harness.Plan {
 		return harness.Plan{Prop: "C16", Suppress: findings.Suppressor("C16"), Checks: []harness.Check{
-		{Name: "reparse", Quick: 100000, Thorough: 1500000, Gen: func(t *rapid.T) harness.Case { return harness.Case{In: gen.Doc().Draw(t, "in")} }, Prop: prop, Rule: rule},
-		{Name: "reparse_lines", Quick: 50000, Thorough: 700000, Gen: func(t *rapid.T) harness.Case { return harness.Case{In: gen.Lines().Draw(t, "in")} }, Prop: prop, Rule: "G2 only: " + rule},
+		{Name: "reparse", Quick: 100000, Thorough: 1500000, Gen: func(t *rapid.T) harness.Case { return withReader(t, harness.Case{In: gen.Doc().Draw(t, "in")}) }, Prop: prop, Rule: rule},
+		{Name: "reparse_lines", Quick: 50000, Thorough: 700000, Gen: func(t *rapid.T) harness.Case { return withReader(t, harness.Case{In: gen.Lines().Draw(t, "in")}) }, Prop: prop, Rule: "G2 only: " + rule},
 	}}
 }
 
